@@ -28,6 +28,7 @@ type arpDriver struct {
 	panics int
 	steps  int
 	infra  string // harness-level failure (not a verdict)
+	stress int32  // > 0 while overlapping API calls are in flight: the event sink then dawdles under the handler mutex
 }
 
 func (d *arpDriver) install() {
@@ -48,6 +49,7 @@ func (d *arpDriver) install() {
 			c.add(evt{kind: "check", loop: kv[0].(int), addr: kv[1].(packet.Addr), tgt: tgt, b1: kv[3].(bool)})
 			c.mu.Unlock()
 		case "arp.start": // under arpMutex
+			stall(&d.stress)
 			c.mu.Lock()
 			a := kv[0].(packet.Addr)
 			c.add(evt{kind: "start", addr: packet.Addr{MAC: packet.CopyMAC(a.MAC), IP: a.IP}, b1: kv[1].(bool)})
@@ -178,6 +180,18 @@ func (d *arpDriver) step(a action) (rec map[string]interface{}) {
 		c.mu.Unlock()
 		rec["err"] = err != nil
 		rec["spawned"] = d.settle(n0, isNew)
+	case "cstart": // n overlapping StartHunt calls for one address, released together
+		n0, e0 := c.nLoops(), c.nEvents()
+		n := a.i("n")
+		if n < 2 {
+			n = 2
+		}
+		addr := d.addr(a)
+		errs := concurrently(n, &d.stress, func() bool { _, err := d.h.StartHunt(addr); return err != nil })
+		isNew := c.countSince(e0, "loop") > 0 || c.countSinceB1(e0, "start") > 0
+		rec["n"], rec["errs"] = n, errs
+		time.Sleep(time.Millisecond) // every goroutine the calls spawned has announced itself by now
+		rec["spawned"] = d.settle(n0, isNew)
 	case "stop":
 		d.h.StopHunt(d.addr(a))
 	case "close":
@@ -277,11 +291,17 @@ func (d *arpDriver) step(a action) (rec map[string]interface{}) {
 			tm = d.u.HuntMAC(a.s("tm"))
 		}
 		sm := d.u.HuntMAC(a.s("sm"))
+		es := sm // Ethernet source; a relay forwarding another station's request has es != sm
+		if a.has("es") {
+			es = d.u.HuntMAC(a.s("es"))
+		} else {
+			rec["es"] = a.s("sm")
+		}
 		ed := vh.Bcast
 		if a.i("op") == 2 {
 			ed, tm = vh.OwnMAC, vh.OwnMAC
 		}
-		b := vh.FrameARP(sm, ed, uint16(a.i("op")), sm, d.u.HuntIP(a.s("si")), tm, d.u.HuntIP(a.s("ti")))
+		b := vh.FrameARP(es, ed, uint16(a.i("op")), sm, d.u.HuntIP(a.s("si")), tm, d.u.HuntIP(a.s("ti")))
 		cp := make([]byte, len(b), len(b)+d.rng.Intn(32))
 		copy(cp, b)
 		fr, err := d.s.Parse(cp)
